@@ -23,6 +23,7 @@
 #include "errortypes.h"
 #include "settings.h"
 #include "suppressions.h"
+#include "verif_trace.h"
 
 #include <cassert>
 #include <sstream>
@@ -43,10 +44,22 @@ bool Executor::hasToLog(const ErrorMessage &msg)
     if (msg.severity == Severity::internal)
         return true;
 
+#ifdef DANMAR_CPPCHECK_VERIF
+    struct VerifQ {
+        const ErrorMessage& m;
+        const char* res;
+        ~VerifQ() {
+            VERIF_EVT("ExecQuery", verif::msgKey(m) + verif::kv("res", res));
+        }
+    } verifQ{msg, "suppressed"};
+#endif
     if (!mSuppressions.nomsg.isSuppressed(msg, {}))
     {
         // TODO: there should be no need for verbose and default messages here
         std::string errmsg = msg.toString(mSettings.verbose, mSettings.templateFormat, mSettings.templateLocation);
+#ifdef DANMAR_CPPCHECK_VERIF
+        verifQ.res = errmsg.empty() ? "empty" : (mSettings.emitDuplicates ? "pass" : "dup");
+#endif
         if (errmsg.empty())
             return false;
 
@@ -55,8 +68,14 @@ bool Executor::hasToLog(const ErrorMessage &msg)
 
         std::lock_guard<std::mutex> lg(mErrorListSync);
         if (mErrorList.emplace(std::move(errmsg)).second) {
+#ifdef DANMAR_CPPCHECK_VERIF
+            verifQ.res = "pass";
+            // emitted inside mErrorListSync: the order of ExecQuery events is the order of the duplicate filter
+            VERIF_EVT("ExecPass", verif::msgKey(msg) + verif::kb("held", verif::held(mErrorListSync)));
+#endif
             return true;
         }
+        VERIF_EVT("ExecDup", verif::msgKey(msg) + verif::kb("held", verif::held(mErrorListSync)));
     }
     return false;
 }
